@@ -65,6 +65,9 @@ def path_arg(rng, doc):
             c = part.get(k)
             if c is not None and "c" in c and not frag_ok(c):
                 return PC.mkpath([{"p": "prim", "v": "a"}])
+    for part in p["parts"]:
+        if part["p"] != "prim" and rng.random() < 0.25:
+            part["label"] = rng.choice(["lbl", "", "L 2"])
     conc = M.is_concrete(p)
     p = dict(p, datum=rng.choice([None, None, "length", "dtype", "map_keys", "map_values"]),
              multi=None if conc else rng.choice([None, "first", "last", "all", "single"]), order=rng.choice(["dm", "md"]))
